@@ -17,7 +17,8 @@ RULE = ("allocator cases = (MAX_CHANNEL, probes, cursor, occupancy set) with cur
         "ops, exhaustion) and on 65535 with the cursor preset near the top; exhaustive enumeration of all histories "
         "up to a length for MAX <= 3 (thorough); non-trivial = a wrap-around, a skip of an occupied id, an exhaustion "
         "or a late frame occurred; distinct = distinct canonical op sequence")
-DRIVER_TARGETS = ['SshuttleModel.Code.Alloc']
+DRIVER_TARGETS = ['SshuttleModel.Code.Alloc', 'SshuttleModel.Code.Tunnel']
+DRIVERS = ['C06', 'Tunnel']
 ASSUMPTIONS = [
     "the server only sends data-type frames that are well-formed for the flow kind (UDP replies carry 'ip,port,' header)",
     "id reuse after a full cursor cycle is outside the property by its own wording (DESIGN F19)",
@@ -245,6 +246,17 @@ def alloc_case(ssnet, maxch, probes_unused, chani, occ, nonevals, rng):
 
 
 def run(ctx):
+    import tunnel_gen as tg
+    # identifier reuse vs the lifetime of the finished flow's handler objects (real Mux/Proxy classes)
+    t_in, t_out = [], []
+    for maxchan in (1, 2):
+        a, b = tg.reap_after_reuse(ctx, ctx.rng, 'C06', maxchan)
+        t_in.append(a)
+        t_out.append(b)
+        ctx.count()
+        ctx.mark(('reap-after-reuse', maxchan), True)
+        ctx.hist('directed:reap-after-reuse')
+    tg.compare(ctx, t_in, t_out, 'C06')
     import sshuttle.ssnet as ssnet
     import sshuttle.helpers as helpers
     helpers.verbose = 0
@@ -437,6 +449,13 @@ def run(ctx):
 
 
 def replay(ctx, rep):
+    if isinstance(rep.get('case'), dict) and 'script' in rep['case']:
+        import tunnel_gen as tg
+        c2 = type(ctx)(ctx.prop_id, 'quick', 0)
+        for maxchan in (1, 2):
+            tg.reap_after_reuse(c2, c2.rng, 'C06', maxchan)
+        hit = [v for v in c2.violations if v['key'] == rep.get('key')]
+        return bool(hit), (str(hit[0]['observed']) if hit else 'the new flow keeps its identifier and its bytes')
     import sshuttle.ssnet as ssnet
     case = rep['case']
     old_stderr = sys.stderr
